@@ -458,7 +458,7 @@ func buildField(ww *conversionVisitor, node sourcewalk.FieldNode) (*descriptorpb
 				}
 
 				if st.Integer.Rules.Maximum != nil {
-					if st.Integer.Rules.ExclusiveMaximum != nil {
+					if !exclusive(st.Integer.Rules.ExclusiveMaximum) {
 						rules.GetInt32().LessThan = &validate.Int32Rules_Lte{
 							Lte: int32(*st.Integer.Rules.Maximum),
 						}
@@ -470,7 +470,7 @@ func buildField(ww *conversionVisitor, node sourcewalk.FieldNode) (*descriptorpb
 				}
 
 				if st.Integer.Rules.Minimum != nil {
-					if st.Integer.Rules.ExclusiveMinimum != nil {
+					if !exclusive(st.Integer.Rules.ExclusiveMinimum) {
 						rules.GetInt32().GreaterThan = &validate.Int32Rules_Gte{
 							Gte: int32(*st.Integer.Rules.Minimum),
 						}
@@ -487,7 +487,7 @@ func buildField(ww *conversionVisitor, node sourcewalk.FieldNode) (*descriptorpb
 				}
 
 				if st.Integer.Rules.Maximum != nil {
-					if st.Integer.Rules.ExclusiveMaximum != nil {
+					if !exclusive(st.Integer.Rules.ExclusiveMaximum) {
 						rules.GetInt64().LessThan = &validate.Int64Rules_Lte{
 							Lte: *st.Integer.Rules.Maximum,
 						}
@@ -499,7 +499,7 @@ func buildField(ww *conversionVisitor, node sourcewalk.FieldNode) (*descriptorpb
 				}
 
 				if st.Integer.Rules.Minimum != nil {
-					if st.Integer.Rules.ExclusiveMinimum != nil {
+					if !exclusive(st.Integer.Rules.ExclusiveMinimum) {
 						rules.GetInt64().GreaterThan = &validate.Int64Rules_Gte{
 							Gte: *st.Integer.Rules.Minimum,
 						}
@@ -516,7 +516,7 @@ func buildField(ww *conversionVisitor, node sourcewalk.FieldNode) (*descriptorpb
 				}
 
 				if st.Integer.Rules.Maximum != nil {
-					if st.Integer.Rules.ExclusiveMaximum != nil {
+					if !exclusive(st.Integer.Rules.ExclusiveMaximum) {
 						rules.GetUint32().LessThan = &validate.UInt32Rules_Lte{
 							Lte: uint32(*st.Integer.Rules.Maximum),
 						}
@@ -528,7 +528,7 @@ func buildField(ww *conversionVisitor, node sourcewalk.FieldNode) (*descriptorpb
 				}
 
 				if st.Integer.Rules.Minimum != nil {
-					if st.Integer.Rules.ExclusiveMinimum != nil {
+					if !exclusive(st.Integer.Rules.ExclusiveMinimum) {
 						rules.GetUint32().GreaterThan = &validate.UInt32Rules_Gte{
 							Gte: uint32(*st.Integer.Rules.Minimum),
 						}
@@ -545,7 +545,7 @@ func buildField(ww *conversionVisitor, node sourcewalk.FieldNode) (*descriptorpb
 				}
 
 				if st.Integer.Rules.Maximum != nil {
-					if st.Integer.Rules.ExclusiveMaximum != nil {
+					if !exclusive(st.Integer.Rules.ExclusiveMaximum) {
 						rules.GetUint64().LessThan = &validate.UInt64Rules_Lte{
 							Lte: uint64(*st.Integer.Rules.Maximum),
 						}
@@ -557,7 +557,7 @@ func buildField(ww *conversionVisitor, node sourcewalk.FieldNode) (*descriptorpb
 				}
 
 				if st.Integer.Rules.Minimum != nil {
-					if st.Integer.Rules.ExclusiveMinimum != nil {
+					if !exclusive(st.Integer.Rules.ExclusiveMinimum) {
 						rules.GetUint64().GreaterThan = &validate.UInt64Rules_Gte{
 							Gte: uint64(*st.Integer.Rules.Minimum),
 						}
@@ -829,6 +829,12 @@ func (ww *conversionVisitor) setJ5Ext(node sourcewalk.SourceNode, dest *descript
 	proto.SetExtension(dest, ext_j5pb.E_Field, extOptions)
 
 	return extOptions
+}
+
+// exclusive reports whether an optional exclusiveMinimum / exclusiveMaximum
+// flag is set and true; an absent flag means the bound is inclusive.
+func exclusive(flag *bool) bool {
+	return flag != nil && *flag
 }
 
 func RangeField(pt protoreflect.Message, f func(protoreflect.FieldDescriptor, protoreflect.Value) error) error {
